@@ -391,6 +391,23 @@ def r3(ctx, cfg):
                 ok = q.has_cond(conds, "is_zero", pol=False, arg_pred=lambda a: contains(a[0], lambda x: x[0] == "field" and x[2] == "amount" and
                                                                                         contains(x[1], lambda y: is_param_field(y, "msg", "amount"))))
                 ctx.ob(R, EXEC, "%s-zero-amount-rejected" % arm, ok, "%s proceeds with a zero amount" % arm, fn=f, line=t["line"], sample="guard: !amount.amount.is_zero()")
+                # "delegating or undelegating zero ... fails": no success result of the arm without the amount having been
+                # found non-zero and the stake change having succeeded (a shortcut `return Ok(..)` in front of the guard)
+                def holds(conds, callee=callee):
+                    return q.succeeded(conds, callee) and q.has_cond(conds, "is_zero", pol=False, arg_pred=lambda a: contains(
+                        a[0], lambda x: x[0] == "field" and x[2] == "amount" and contains(x[1], lambda y: is_param_field(y, "msg", "amount"))))
+                out = q.successes_outside(P, f, holds, only=lambda b, arm=arm: _arm(P, f, b) == arm)
+                ctx.ob(R, EXEC, "%s-succeeds-only-with-positive-amount-and-stake-change" % arm, not out,
+                       "the %s arm can produce a success at block(s) %s without `!amount.is_zero()` and a successful %s" % (arm, out, callee.rsplit("::", 1)[1]),
+                       fn=f, sample="every non-Err result of the arm dominated by the guard and Continue(%s)" % callee.rsplit("::", 1)[1])
+        rs = [(b, t) for b, t in q.calls(f, SK + "remove_stake") if _arm(P, f, b) == "Redelegate"]
+        as_ = [(b, t) for b, t in q.calls(f, SK + "add_stake") if _arm(P, f, b) == "Redelegate"]
+        if len(rs) == 1 and len(as_) == 1:
+            out = q.successes_outside(P, f, lambda conds: q.succeeded(conds, SK + "remove_stake") and q.succeeded(conds, SK + "add_stake"),
+                                      only=lambda b: _arm(P, f, b) == "Redelegate")
+            ctx.ob(R, EXEC, "Redelegate-succeeds-only-after-both-stake-changes", not out,
+                   "the Redelegate arm can produce a success at block(s) %s without remove_stake and add_stake having succeeded" % out, fn=f,
+                   sample="every non-Err result of the arm dominated by Continue(remove_stake) and Continue(add_stake)")
         # no storage write before the guards: first write-capable call in each arm is after the zero check (covered by dominance above)
     for name in ("add_stake", "remove_stake"):
         key = SK + name
@@ -401,6 +418,10 @@ def r3(ctx, cfg):
         ok = len(us) == 1 and _succ_dom(P, f, us[0][0], SK + "validate_denom")
         ctx.ob(R, key, "denomination-validated-before-update", ok, "%s reaches update_stake without a successful validate_denom" % name, fn=f,
                sample="update_stake dominated by Continue(validate_denom(..))")
+        out = q.successes_outside(P, f, lambda conds: q.succeeded(conds, SK + "validate_denom"))
+        ctx.ob(R, key, "succeeds-only-for-the-bonded-denomination", not out,
+               "%s can produce a success at block(s) %s without validate_denom having succeeded" % (name, out), fn=f,
+               sample="every non-Err result dominated by Continue(validate_denom(..))")
         if ok:
             vb = q.calls(f, SK + "validate_denom")
             a = P.call_args(f, vb[0][1], vb[0][0])
@@ -430,6 +451,10 @@ def r3(ctx, cfg):
         ok = len(ur) == 1 and all(_succ_dom(P, f, b, SK + "update_rewards") for b, t in writes) and len(writes) >= 3
         ctx.ob(R, key, "unknown-validator-fails-before-any-write", ok, "update_stake writes before update_rewards succeeded", fn=f,
                sample="%d writes, all dominated by Continue(update_rewards(..))" % len(writes))
+        out = q.successes_outside(P, f, lambda conds: q.succeeded(conds, SK + "update_rewards"))
+        ctx.ob(R, key, "succeeds-only-for-a-known-validator", not out,
+               "update_stake can produce a success at block(s) %s without update_rewards (which rejects an unknown validator) having succeeded" % out, fn=f,
+               sample="every non-Err result dominated by Continue(update_rewards(..))")
         # the subtraction is guarded
         subs = [(b, t) for b, t in f.calls() if t["callee"].get("trait") in ("std::ops::SubAssign", "std::ops::Sub") or t["callee"]["name"] == "checked_sub"]
         guard_ok = True
